@@ -87,6 +87,18 @@ def sqlOp (name : String) (j : Json) : Except String (Option Json) := do
     let v ← valOfJson (← j.getObjVal? "value")
     let vs ← strOf j "value_str"
     pure (some (strJ (GenSql.add_column_exec (fun _ => vs) (← strOf j "colname") (← strOf j "coltype") v (← strOf j "tn"))))
+  | "sql_intersection" =>              -- what `get_intersection` hands to `self.conn.execute`, and `ncol`
+    let names ← (← jArr j "names").toList.mapM (fun x => do let s ← asStr x; pure s.toList)
+    let m ← (← jArr j "match").toList.mapM (fun x => do let s ← asStr x; pure s.toList)
+    let column ← strOf j "column"
+    pure (some (match GenSql.intersection_query names column m with
+      | .error e => gerrJ e
+      | .ok text => Json.mkObj [("text", strJ text), ("ncol", intJ (GenSql.intersection_ncol names column))]))
+  | "sql_intersection_split" =>        -- the cutting of the joined rows into one row list per structure
+    let rows ← (← jArr j "rows").toList.mapM valsOfJson
+    pure (some (match GenSql.intersection_split rows (← jInt j "ntable") (← jInt j "ncol") with
+      | .error e => gerrJ e
+      | .ok per => .arr (per.map (fun t => Json.arr (t.map (fun r => Json.arr (r.map valJ).toArray)).toArray)).toArray))
   | "sql_query" =>                     -- MicroSql on a statement text the real code sent
     let db ← dbOfJson (← j.getObjVal? "db")
     let params ← valsOfJson (.arr (← jArr j "params"))
